@@ -99,6 +99,9 @@ func (r *c31real) fill() (uint, float64) {
 	d := r.c.dropped
 	d.mut.RLock()
 	defer d.mut.RUnlock()
+	if d.current == nil {
+		return 0, 0 // the next Check of the real code will panic and be reported as a crash
+	}
 	return d.current.Count(), d.current.LoadFactor()
 }
 
@@ -187,6 +190,10 @@ type c31case struct {
 	// retention measurement (evidence only): false once the history did something that
 	// makes "age in dropped records" meaningless (burst past the capacity, dropped-size change)
 	cleanRetention bool
+	// repeated dropped records of one id put the same fingerprint into the filter again
+	dropCount    map[string]int
+	maxDropCount int
+	dupHeavy     bool // only a quarter of the histories record one id as dropped more than 3 times
 }
 
 func (c *c31case) log(st c31step) {
@@ -299,6 +306,10 @@ func (c *c31case) recordDroppedNoDrain(id string) bool {
 	c.dropped[id] = &c31dropRec{epoch: c.epoch, overflow: overflow, ordinal: c.nDropped}
 	c.everDrop[id] = true
 	c.nDropped++
+	c.dropCount[id]++
+	if c.dropCount[id] > c.maxDropCount {
+		c.maxDropCount = c.dropCount[id]
+	}
 	if overflow {
 		c.run.Count("addqueue_overflows_exempted", 1)
 	}
@@ -309,6 +320,9 @@ func (c *c31case) recordDroppedNoDrain(id string) bool {
 }
 
 func (c *c31case) recordDropped(id string) {
+	if !c.dupHeavy && c.dropCount[id] >= 3 {
+		id = c.newID("d")
+	}
 	if c.rng.Chance(0.2) {
 		// measured, not asserted: what CheckTrace says before the queue is drained
 		if rec, _, found := c.real.c.CheckTrace(id); !found || rec.Kept() {
@@ -439,8 +453,13 @@ func (c *c31case) lookup(id string, span bool) {
 				sig += "/also-recorded-kept"
 			}
 			d := c.dropped[id]
-			c.run.Violation(sig, fmt.Sprintf("%s(%s) answered %q although the trace was recorded as dropped %d dropped records ago and the filter has not been filled to its capacity since", call, id, answer, c.nDropped-d.ordinal-1),
-				c.witness("id", id))
+			what := fmt.Sprintf("%s(%s) answered %q although the trace was recorded as dropped %d dropped records ago and the filter has not been filled to its capacity since", call, id, answer, c.nDropped-d.ordinal-1)
+			if c.maxDropCount >= 4 {
+				// input class of its own: the same fingerprint was inserted 4+ times
+				sig = "C31/dropped/forgotten-after-repeated-drop-records-of-one-id"
+				what += fmt.Sprintf("; some trace id was recorded as dropped %d times in this history", c.maxDropCount)
+			}
+			c.run.Violation(sig, what, c.witness("id", id, "max_drop_records_of_one_id", c.maxDropCount))
 		}
 	case hasKept && kr.must:
 		c.run.Count("kept_promise_checks", 1)
@@ -562,7 +581,13 @@ func (c *c31case) pickDropped() (string, bool) {
 func c31run(run *verifkit.Run, rng *verifkit.Rand, sample bool) {
 	workers := uint(rng.Range(1, 3))
 	kPer := uint(verifkit.Pick(rng, 1, 2, 3, 5, 8, 16, 32))
-	dPer := uint(verifkit.Pick(rng, 4, 8, 16, 32, 64, 100, 128, 200, 500, 1500))
+	dPer := uint(verifkit.Pick(rng, 32, 32, 64, 64, 128, 128, 500, 1500)) // capacities whose filter is at most ~3/4 occupied when "full" (see notes/C31.md)
+	dupHeavy := rng.Chance(0.25)
+	if dupHeavy && dPer < 500 {
+		// many copies of one fingerprint make inserts fail in filters with few buckets even
+		// when they are nearly empty (see notes/C31.md); keep those histories on larger filters
+		dPer = 500
+	}
 	mk := func(per uint) uint { return per*workers - uint(rng.Intn(int(workers))) } // ceil(x/workers) == per
 	cfg := c31cfg(mk(kPer), mk(dPer), workers)
 	clock := clockwork.NewFakeClock()
@@ -574,7 +599,8 @@ func c31run(run *verifkit.Run, rng *verifkit.Rand, sample bool) {
 	defer real.c.Stop()
 	c := &c31case{run: run, rng: rng, real: real, clock: clock,
 		k: int(cfg.GetKeptSizePerWorker()), kept: map[string]*c31keptRec{}, dropped: map[string]*c31dropRec{}, everDrop: map[string]bool{},
-		capOf: map[*cuckoo.Filter]uint{}, capsUsed: map[uint]bool{}, cleanRetention: true}
+		capOf: map[*cuckoo.Filter]uint{}, capsUsed: map[uint]bool{}, cleanRetention: true,
+		dropCount: map[string]int{}, dupHeavy: dupHeavy}
 	c.trackGens()
 	c.log(c31step{Op: "New", Note: fmt.Sprintf("kept per worker %d, dropped per worker %d, workers %d", c.k, c.capCurrent, workers)})
 	steps := rng.Range(20, 220)
@@ -594,7 +620,11 @@ func c31run(run *verifkit.Run, rng *verifkit.Rand, sample bool) {
 				id, _ := c.pickKept()
 				c.recordDropped(id) // dropped after (or besides) kept
 			case y < 0.45 && len(c.dropIDs) > 0:
-				c.recordDropped(c.dropIDs[rng.Intn(len(c.dropIDs))])
+				id := c.dropIDs[rng.Intn(len(c.dropIDs))]
+				if c.dupHeavy && rng.Chance(0.7) {
+					id = c.dropIDs[0] // one hot trace whose dropped decision is recorded again and again
+				}
+				c.recordDropped(id)
 			default:
 				id := c.newID("d")
 				c.recordDropped(id)
@@ -643,7 +673,10 @@ func c31run(run *verifkit.Run, rng *verifkit.Rand, sample bool) {
 			}
 			nd := dPer
 			if rng.Chance(0.3) {
-				nd = uint(verifkit.Pick(rng, 8, 32, 100, 500))
+				nd = uint(verifkit.Pick(rng, 32, 64, 128, 500))
+				if c.dupHeavy {
+					nd = 500
+				}
 				c.cleanRetention = false
 			}
 			c.resize(nk*workers, nd*workers, workers)
@@ -670,7 +703,7 @@ func c31run(run *verifkit.Run, rng *verifkit.Rand, sample bool) {
 func TestVerif_C31(t *testing.T) {
 	run := verifkit.Start(t, "C31", "cache")
 	defer run.Finish()
-	run.Rule("PRNG histories on one real cuckooSentCache (kept capacity 1-32 per worker, dropped capacity 4-1500 per worker, 1-3 workers): Record(keep) of new and known ids with boundary rates and interned reasons, Record(drop) of new ids, of kept ids and of already dropped ids, bursts that stop one short of / reach / exceed the filter capacity or the add-queue depth, CheckSpan/CheckTrace biased to the next-to-be-evicted kept id and the oldest outstanding dropped promise, Maintain at different cadences (incl. never), Resize up and down, fake-clock advances across the 3 s recent-dropped TTL; non-trivial = the history looked up a kept id with exactly K-1 newer ids, recorded a dropped decision for an id that also has a kept record, and filled the filter to capacity at least once; distinct = sequence of step kinds")
+	run.Rule("PRNG histories on one real cuckooSentCache (kept capacity 1-32 per worker, dropped capacity 32-1500 per worker, 1-3 workers): Record(keep) of new and known ids with boundary rates and interned reasons, Record(drop) of new ids, of kept ids and of already dropped ids, bursts that stop one short of / reach / exceed the filter capacity or the add-queue depth, CheckSpan/CheckTrace biased to the next-to-be-evicted kept id and the oldest outstanding dropped promise, Maintain at different cadences (incl. never), Resize up and down, fake-clock advances across the 3 s recent-dropped TTL; non-trivial = the history looked up a kept id with exactly K-1 newer ids, recorded a dropped decision for an id that also has a kept record, and filled the filter to capacity at least once; distinct = sequence of step kinds")
 	run.Assume("answers are taken after the driver drained the add queue (CuckooTraceChecker.drain); the 100us internal drain goroutine may run concurrently; the internal monitor is parked (SizeCheckInterval 24h) and the driver calls Maintain")
 	run.Assume("'filled to capacity' is read as: entry count of the current filter >= the capacity it was created with (or load factor > 0.99); the filter library places at most 96% of its slots at that capacity, so inserts do not fail before that point")
 	run.Cases("histories", run.N(1500, 100000), func(i int, rng *verifkit.Rand) { c31run(run, rng, i < 2) })
